@@ -25,6 +25,16 @@ func main() {
 			filter = a
 		}
 	}
+	if rs := os.Getenv("RECIPE"); rs != "" {
+		for _, r := range strings.Fields(rs) {
+			if l := p01.LineOf(r); l != "" {
+				fmt.Println(l)
+			} else {
+				fmt.Fprintln(os.Stderr, "no such case:", r)
+			}
+		}
+		return
+	}
 	all := p01.Lines(seed, thorough)
 	var lines []string
 	for _, l := range all {
